@@ -369,6 +369,49 @@ def specs():
                           ("metrics.euclidean", M.euclidean, lambda a: [a.v(), a.v()]), ("frames.ned2enu", frames.ned2enu, lambda a: [a.v()]), ("frames.enu2ned", frames.enu2ned, lambda a: [a.v()]),
                           ("quaternion.slerp", qslerp, lambda a: [a.qu(), a.qu(), a.t()]), ("mathfuncs.skew", mathfuncs.skew, lambda a: [a.v()])):
         add("[by keyword] " + nm, kwcall(func), fac)
+
+    # methods called by keyword (TRIAD's docstrings do: estimate(w1=a, w2=m)): a fresh object per call on both sides
+    def kwmethod(make, meth):
+        names_all = [n for n in inspect.signature(getattr(make(), meth)).parameters]
+
+        def fn(*args):
+            names = names_all[:len(args)]
+            cp = lambda a: a.copy() if isinstance(a, np.ndarray) else a      # noqa: E731
+            np.random.seed(0)          # (OLEQ draws its start vector from the global generator)
+            first = getattr(make(), meth)(*[cp(a) for a in args])
+            np.random.seed(0)
+            return KwPair(first, getattr(make(), meth)(**{n: cp(a) for n, a in zip(names, args)}), names)
+        return fn
+    for nm, make, meth, fac in (
+            ("TRIAD.estimate", lambda: F.TRIAD(), "estimate", lambda a: list(a.am())), ("Davenport.estimate", lambda: F.Davenport(), "estimate", lambda a: list(a.am())),
+            ("QUEST.estimate", lambda: F.QUEST(), "estimate", lambda a: list(a.am())), ("FLAE.estimate", lambda: F.FLAE(), "estimate", lambda a: list(a.am())),
+            ("SAAM.estimate", lambda: F.SAAM(), "estimate", lambda a: list(a.am())), ("FAMC.estimate", lambda: F.FAMC(), "estimate", lambda a: list(a.am())),
+            ("FQA.estimate", lambda: F.FQA(), "estimate", lambda a: list(a.am())), ("Tilt.estimate", lambda: F.Tilt(), "estimate", lambda a: list(a.am())),
+            ("AQUA.estimate", lambda: F.AQUA(), "estimate", lambda a: list(a.am())), ("AQUA.init_q", lambda: F.AQUA(), "init_q", lambda a: list(a.am())),
+            ("OLEQ.estimate", lambda: F.OLEQ(), "estimate", lambda a: list(a.am())),
+            ("Madgwick.updateIMU", lambda: F.Madgwick(), "updateIMU", qga), ("Madgwick.updateMARG", lambda: F.Madgwick(), "updateMARG", qgam),
+            ("Mahony.updateIMU", lambda: F.Mahony(), "updateIMU", qga), ("Mahony.updateMARG", lambda: F.Mahony(), "updateMARG", qgam),
+            ("AQUA.updateIMU", lambda: F.AQUA(), "updateIMU", qga), ("AQUA.updateMARG", lambda: F.AQUA(), "updateMARG", qgam),
+            ("EKF.update", lambda: F.EKF(), "update", qgam), ("EKF.update[IMU]", lambda: F.EKF(), "update", qga),
+            ("Fourati.update", lambda: F.Fourati(), "update", qgam), ("ROLEQ.update", lambda: F.ROLEQ(), "update", qgam),
+            ("UKF.update", lambda: F.UKF(), "update", qga), ("AngularRate.update", lambda: F.AngularRate(), "update", lambda a: [a.qu(), a.v(s=0.1)]),
+            ("Quaternion.product", lambda: ahrs.Quaternion([0.5, -0.5, 0.5, 0.5]), "product", lambda a: [a.q()]),
+            ("Quaternion.rotate", lambda: ahrs.Quaternion([0.5, -0.5, 0.5, 0.5]), "rotate", lambda a: [a.v()]),
+            ("Quaternion.from_rpy", lambda: ahrs.Quaternion(), "from_rpy", lambda a: [a.ang()]),
+            ("Quaternion.from_DCM", lambda: ahrs.Quaternion(), "from_DCM", lambda a: [a.R()]),
+            ("DCM.from_quaternion", lambda: DCM(), "from_quaternion", lambda a: [a.qu()]),
+            ("WMM.magnetic_field", lambda: wmm_mod.WMM(), "magnetic_field", lambda a: [10.0, 20.0, 1.0])):
+        def wrap(nm=nm, make=make, meth=meth):
+            f_ = kwmethod(make, meth)
+            if nm == "WMM.magnetic_field":
+                def g_(*args):
+                    w1_, w2_ = make(), make()
+                    w1_.magnetic_field(*args)
+                    w2_.magnetic_field(latitude=args[0], longitude=args[1], height=args[2])
+                    return KwPair(np.array([w1_.X, w1_.Y, w1_.Z]), np.array([w2_.X, w2_.Y, w2_.Z]), ["latitude", "longitude", "height"])
+                return g_
+            return f_
+        add("[method by keyword] " + nm, wrap(), fac)
     return S
 
 
